@@ -24,7 +24,7 @@ NA = {
 
 CHECKS = {
     "C08": {
-        "text": "Seeded search over event-loop schedules and store faults: the real async API runs on a simulated event loop (virtual clock, seeded choice of the next ready handle) over simulated async documents whose item getter suspends, delays, reorders and fails (with the error classes the engine suppresses for missing items, too) under simulator control, with several tasks hammering one compiled query, cancellations landing inside in-flight evaluations, filters that die at evaluation time through a simulator-controlled function extension, and documents also given as text or short-read streams; every async result is compared with the synchronous twin on the same objects (values, types, order, paths, parts, error class), and bounded progress is required once faults stop. Sampling, not proof.",
+        "text": "Seeded search over event-loop schedules and store faults: the real async API runs on a simulated event loop (virtual clock, seeded choice of the next ready handle) over simulated async documents whose item getter suspends, delays, reorders and fails (with the error classes the engine suppresses for missing items, too) under simulator control, with several tasks hammering one compiled query, cancellations landing inside in-flight evaluations, filters that die at evaluation time through a simulator-controlled function extension, and documents also given as text or short-read streams; texts the environment refuses, undecodable and string-root text documents; every async result is compared with the synchronous twin on the same objects (values, types, order, paths, parts, error class), and bounded progress is required once faults stop. Sampling, not proof.",
         "design": "4.1",
         "note": "Trusted: CPython asyncio Task/Future machinery above the custom loop; the sync API as reference (differential oracle: a bug identical in both halves is invisible); harness wrappers SimMap/SimSeq return the same items from both getters.",
         "technique": "deterministic simulation: custom asyncio event loop with virtual time + seeded scheduler, fault-injecting async item store, differential oracle vs sync API, choice-list replay/minimisation",
@@ -54,7 +54,7 @@ CHECKS = {
         "technique": "deterministic simulation: history machine over a shared long-lived value with injected failing applications and caller mutations, snapshot/alias oracle against a fresh-patch reference, replay/minimisation",
     },
     "C18": {
-        "text": "Seeded search over simulated process invocations: the real CLI main() runs in-process behind a process stub (argv, stdin/stdout/stderr, exit status) and an in-memory file system whose stored bytes are corrupted (truncated, flipped, emptied, garbage, invalid UTF-8, UTF-16, BOM, padding) before the run, over every option combination, inline / file / empty / multi-line expressions, documents with non-ASCII text, lone surrogates and non-finite numbers; output bytes, exit status and stderr are compared with the corresponding library call on the same bytes; a sample is cross-checked against a real python -m jsonpath subprocess. Sampling, not proof.",
+        "text": "Seeded search over simulated process invocations: the real `python -m jsonpath` entry (jsonpath/__main__.py, run in-process through runpy) runs behind a process stub (argv, stdin/stdout/stderr, exit status, open() routed) and an in-memory file system whose stored bytes are corrupted (truncated, flipped, emptied, garbage, invalid UTF-8, UTF-16, BOM, padding) before the run, over every option combination, inline / file / empty / multi-line expressions, documents with non-ASCII text, lone surrogates and non-finite numbers; output bytes (any json.dumps rendering of the same value counts as its serialisation), exit status and stderr are compared with the corresponding library call on the same bytes; a sample is cross-checked against a real python -m jsonpath subprocess. Sampling, not proof.",
         "design": "4.6",
         "note": "Trusted: the library call behind each sub-command as reference; json.dumps as 'the JSON serialisation'; the in-process stub for all but the sampled subprocess runs. I/O errors (EIO, ENOSPC, missing file) are not injected: the property gives them no meaning.",
         "technique": "deterministic simulation of the process boundary: in-memory file system + process stub with stored-byte fault injection, differential oracle vs library call, sampled real-subprocess parity, replay/minimisation",
